@@ -1,6 +1,70 @@
 //! Further replay operations (grown per property).
-use scale_info::{form::PortableForm, Path};
+use scale_info::{form::PortableForm, interner::Interner, Path, PortableRegistryBuilder, Type, TypeDefPrimitive};
 use serde_json::{json, Value};
+
+fn ty_of(i: u64) -> Type<PortableForm> {
+    Type::new(Path::from_segments_unchecked(vec![format!("T{i}")]), vec![], TypeDefPrimitive::U8, vec![])
+}
+
+fn ty_index(t: &Type<PortableForm>) -> u64 {
+    t.path.segments[0][1..].parse().unwrap()
+}
+
+fn table_step(cmd: &Value) -> Value {
+    let pre: Vec<u64> = cmd["pre"].as_array().unwrap().iter().map(|x| x.as_u64().unwrap()).collect();
+    let arg = cmd["arg"].as_u64().unwrap();
+    let sym = cmd["sym"].as_u64().unwrap();
+    let step = cmd["step"].as_str().unwrap();
+    if cmd["kind"] == "interner" {
+        let mut it: Interner<u64> = Interner::new();
+        for (i, v) in pre.iter().enumerate() {
+            let (ins, s) = it.intern_or_get(*v);
+            if !ins || s.into_untracked().id as usize != i {
+                return json!({"setup_failed": true});
+            }
+        }
+        let mut big: Interner<u64> = Interner::new();
+        for i in 0..=sym {
+            big.intern_or_get(100_000 + i);
+        }
+        let after = |it: &Interner<u64>| it.elements().to_vec();
+        match step {
+            "intern_or_get" => {
+                let (ins, s) = it.intern_or_get(arg);
+                let id = s.into_untracked().id;
+                json!({"inserted": ins, "id": id, "after": after(&it)})
+            }
+            "get" => {
+                let r = it.get(&arg).map(|s| s.into_untracked().id);
+                json!({"id": r, "after": after(&it)})
+            }
+            "resolve" => {
+                let s = big.intern_or_get(100_000 + sym).1;
+                let r = it.resolve(s).copied();
+                json!({"value": r, "after": after(&it)})
+            }
+            _ => json!({"error": "step"}),
+        }
+    } else {
+        let mut b = PortableRegistryBuilder::new();
+        for (i, v) in pre.iter().enumerate() {
+            if b.register_type(ty_of(*v)) as usize != i {
+                return json!({"setup_failed": true});
+            }
+        }
+        let after = |b: &PortableRegistryBuilder| b.finish().types.iter().map(|t| ty_index(&t.ty)).collect::<Vec<_>>();
+        match step {
+            "register_type" => {
+                let next = b.next_type_id();
+                let id = b.register_type(ty_of(arg));
+                json!({"id": id, "next_before": next, "after": after(&b)})
+            }
+            "next_type_id" => json!({"id": b.next_type_id(), "after": after(&b)}),
+            "builder_get" => json!({"value": b.get(sym as u32).map(ty_index), "after": after(&b)}),
+            _ => json!({"error": "step"}),
+        }
+    }
+}
 
 pub fn handle(op: &str, cmd: &Value) -> Value {
     match op {
@@ -13,6 +77,36 @@ pub fn handle(op: &str, cmd: &Value) -> Value {
             let ok_ns = p.namespace() == &segs[..n.saturating_sub(1)];
             let ok_disp = format!("{p}") == segs.join("::");
             json!({"all_ok": ok_empty && ok_ident && ok_ns && ok_disp, "is_empty": ok_empty, "ident": ok_ident, "namespace": ok_ns, "display": ok_disp})
+        }
+        "table_step" => table_step(cmd),
+        "builder_finish" => {
+            let n = cmd["n"].as_u64().unwrap();
+            let mut b = PortableRegistryBuilder::new();
+            for i in 0..n {
+                b.register_type(ty_of(i));
+            }
+            let r = b.finish();
+            let ok = r.types.len() as u64 == n && r.types.iter().enumerate().all(|(i, t)| t.id as usize == i && ty_index(&t.ty) == i as u64);
+            json!({"ok": ok})
+        }
+        "interner_history" => {
+            let vals: Vec<u64> = cmd["values"].as_array().unwrap().iter().map(|x| x.as_u64().unwrap()).collect();
+            let mut it: Interner<u64> = Interner::new();
+            let mut model: Vec<u64> = vec![];
+            let mut ok = true;
+            for v in &vals {
+                let (ins, s) = it.intern_or_get(*v);
+                let id = s.into_untracked().id as usize;
+                match model.iter().position(|m| m == v) {
+                    Some(p) => ok &= !ins && id == p,
+                    None => {
+                        model.push(*v);
+                        ok &= ins && id == model.len() - 1
+                    }
+                }
+            }
+            ok &= it.elements() == &model[..];
+            json!({"ok": ok})
         }
         _ => json!({"error": format!("unknown op {op}")}),
     }
